@@ -157,6 +157,7 @@ func teardown(k *K) {
 			}
 		}
 		w.pending = nil
+		w.closeAllStreams()
 		parks := w.parks
 		w.parks = nil
 		w.mu.Unlock()
